@@ -44,7 +44,12 @@ def run(ctx):
             ws = gen.gen_workspace(root, ctx.rng, depth=ctx.rng.randint(1, 2), venv=False)
             materialize(ws)
             order = sorted(ws.workspace_py())
-            steps = hist.gen_history(ws, ctx.rng, ctx.rng.randint(3, max_steps), parses=lambda t: vh.call(op="parses", text=t)["ok"])
+            if h % 8 == 7:
+                steps = hist.directed_resend(ws, ctx.rng)
+            else:
+                steps = hist.gen_history(ws, ctx.rng, ctx.rng.randint(3, max_steps), parses=lambda t: vh.call(op="parses", text=t)["ok"])
+            if not steps:
+                continue
             A = vh.new_db()
             apply_initial(vh, A, ws, order)
             AQ = vh.new_db()            # realistic long-lived server: queried at every prefix
@@ -173,7 +178,10 @@ def run(ctx):
                 lroot = ctx.scratch(f"l{h}")
                 lws = gen.gen_workspace(lroot, ctx.rng, depth=ctx.rng.randint(1, 2), venv=False, allow_imports=False)
                 materialize(lws)
-                lsp_history(ctx, lws, hist.gen_history(lws, ctx.rng, ctx.rng.randint(3, max_steps), parses=lambda t: vh.call(op="parses", text=t)["ok"]))
+                lsteps = hist.directed_resend(lws, ctx.rng) if h % 2 == 1 else \
+                    hist.gen_history(lws, ctx.rng, ctx.rng.randint(3, max_steps), parses=lambda t: vh.call(op="parses", text=t)["ok"])
+                if lsteps:
+                    lsp_history(ctx, lws, lsteps)
                 shutil.rmtree(lroot, ignore_errors=True)
             if h < 3:
                 ctx.sample({"workspace": ws.spec, "history": [(s["op"], s["rel"], s["valid"]) for s in steps]})
@@ -233,7 +241,8 @@ def lsp_history(ctx, ws, steps):
             else:
                 A.did_open(f, st["text"])
                 opened.add(st["rel"])
-            A.wait_diagnostics(f, before, timeout=20)
+            if A.wait_diagnostics(f, before, timeout=6) is None:
+                ctx.count('change_without_publish')
             current[st["rel"]] = st["text"]
             if st["valid"]:
                 latest_valid[st["rel"]] = st["text"]
@@ -245,7 +254,7 @@ def lsp_history(ctx, ws, steps):
         for rel in last_ok:
             before = B.seq
             B.did_open(ws.abs(rel), latest_valid[rel])
-            B.wait_diagnostics(ws.abs(rel), before, timeout=20)
+            B.wait_diagnostics(ws.abs(rel), before, timeout=6)
         for rel, txt in current.items():
             if latest_valid.get(rel) != txt:
                 before = B.seq
@@ -253,7 +262,7 @@ def lsp_history(ctx, ws, steps):
                     B.did_change(ws.abs(rel), txt)
                 else:
                     B.did_open(ws.abs(rel), txt)
-                B.wait_diagnostics(ws.abs(rel), before, timeout=20)
+                B.wait_diagnostics(ws.abs(rel), before, timeout=6)
         docs = [rel for rel in current if latest_valid.get(rel, None) == current[rel]]
         texts = {rel: current[rel] for rel in docs}
         # the document changed last must also have been analysed last in B: re-send it
@@ -261,7 +270,7 @@ def lsp_history(ctx, ws, steps):
             rel = steps[-1]["rel"]
             before = B.seq
             B.did_change(ws.abs(rel), current[rel])
-            B.wait_diagnostics(ws.abs(rel), before, timeout=20)
+            B.wait_diagnostics(ws.abs(rel), before, timeout=6)
             docs_diag = {rel}
         else:
             docs_diag = set()
